@@ -22,11 +22,12 @@ def run(keys, verbose=True, jobs=16):
         vs = discharge(rep.vcs, idx, jobs=jobs)
         print(f"   solved in {time.time()-t0:.2f}s")
         for v in vs:
-            if verbose or v.status not in ("proved", "covered"):
+            if verbose or v.status not in ("proved", "covered", "unreachable"):
                 print(f"   [{v.status:9}] {v.vc.name:60} {v.solver} {v.time:.3f}s {v.reason[:80]} {v.vc.meta.get('trace')}")
                 if v.status == "refuted" and v.model:
-                    keep = {k: x for k, x in v.model.items() if not k.startswith(('k!','z3name'))}
-                    print("      model:", {k: keep[k] for k in list(keep)[:25]})
+                    keep = {k: x for k, x in v.model.items() if not k.startswith(('k!','z3name')) and len(x) < 60}
+                    print("      model:", {k: keep[k] for k in list(keep)[:30]})
+                    print("      axioms:", v.vc.meta.get("axioms_used"))
         allv += vs
     return allv
 
